@@ -212,6 +212,18 @@ pub fn check_spec(spec: &RuleSpec, level: u8, doc_cap: usize, order_cap: u64) ->
             st.traces += 1;
             let want = base3[i] == 1;
             let got = v == 1;
+            // core::solve is the identifier-free entry point onto the same solver
+            if d.ids.is_empty() && v != 2 && i % 4 == 0 {
+                let cs = crate::report::catch(|| tau_engine::core::solve(&d.expr, doc));
+                st.transitions += 1;
+                if cs != Ok(got) {
+                    st.push_violation(Violation {
+                        signature: "core::solve-disagrees-with-the-solver".into(),
+                        witness: format!("core::solve={:?} solve3={} ; rule {} doc {}", cs, eng::v3name(v), one_line(&yaml), doc.show()),
+                        replay: replay_json(&yaml, var.sw, &var.choices, Some(doc)),
+                    });
+                }
+            }
             if v == 2 && base3[i] != 2 {
                 st.push_violation(Violation {
                     signature: format!("panic-in-matches-after:{}", last_pass(&var.staged)),
